@@ -276,7 +276,162 @@ func (c *c09Env) bulk(data []byte, key int64) string {
 	}
 }
 
+// batch sends all the verify requests in ONE POST /bulk body (one bulk stream; the server answers them
+// concurrently) and returns the verdict per request.
+func (c *c09Env) batch(payloads [][]byte) []string {
+	res := make([]string, len(payloads))
+	fill := func(v string) []string {
+		for i := range res {
+			if res[i] == "" {
+				res[i] = v
+			}
+		}
+		return res
+	}
+	if !c.ensureServer() {
+		return fill("skip")
+	}
+	var body bytes.Buffer
+	for i, p := range payloads {
+		if p == nil {
+			res[i] = "marshal"
+			continue
+		}
+		req, _ := json.Marshal(map[string]any{"action": "verify", "req_id": fmt.Sprintf("q%d", i), "payload": json.RawMessage(p)})
+		body.Write(req)
+		body.WriteByte('\n')
+	}
+	resp, err := c09Client.Post(fmt.Sprintf("http://127.0.0.1:%d/bulk", c.port), "application/json", &body)
+	if err != nil {
+		c.serverDied()
+		return fill("panic")
+	}
+	defer resp.Body.Close() //nolint:errcheck
+	dec := json.NewDecoder(resp.Body)
+	for {
+		var r struct {
+			ReqID   string          `json:"req_id"`
+			Payload json.RawMessage `json:"payload"`
+			Error   *struct {
+				Key string `json:"key"`
+			} `json:"error"`
+			IsFinal bool `json:"is_final"`
+		}
+		if err := dec.Decode(&r); err != nil {
+			c.serverDied()
+			return fill("panic")
+		}
+		if r.IsFinal {
+			return fill("other")
+		}
+		var i int
+		if _, err := fmt.Sscanf(r.ReqID, "q%d", &i); err != nil || i < 0 || i >= len(res) || res[i] != "" {
+			continue
+		}
+		switch {
+		case r.Error == nil:
+			var q struct {
+				OK bool `json:"ok"`
+			}
+			if json.Unmarshal(r.Payload, &q) == nil && q.OK {
+				res[i] = "ok"
+			} else {
+				res[i] = "other"
+			}
+		case r.Error.Key != "":
+			res[i] = r.Error.Key
+		default:
+			res[i] = "other"
+		}
+	}
+}
+
+// c09seq: the life of ONE envelope presented as a sequence of requests to long-lived processes.
+//
+//   c09seq <fx> <base> ( ( op ... ) ( op ... ) ... ) ( ( stage key ) ... )
+//     -> ( ( x<validate> x<lib> x<cli> x<bulk> x<http> x<batch> ) ... ) ( ( x<op outcome> ... ) ... )
+//
+// The op lists are applied one after the other to the same machine; the envelope after list i is
+// "stage i" (all stages carry the signatures made in earlier stages). Then the requests ( stage key )
+// are presented IN ORDER, one request each, to POST /bulk and POST /verify of the one loopback
+// `gobl serve` of this harness process, and afterwards all together in the body of one POST /bulk
+// (batch: one bulk stream with many requests); validate, lib (evaluated when the stage was reached)
+// and cli (a fresh `gobl verify` process) do not depend on the order and are the reference.
+func c09seq(args []V) []V {
+	if len(args) < 4 || args[2].Kind != 'l' || args[3].Kind != 'l' {
+		return []V{VErr("badargs")}
+	}
+	c09.setup()
+	m := newEnvMachine(args[1].Int())
+	type stage struct {
+		data     []byte
+		merr     error
+		val, lib map[int64]string
+		cli      map[int64]string
+	}
+	keys := map[int64]bool{}
+	for _, r := range args[3].L {
+		if r.Kind == 'l' && len(r.L) == 2 {
+			keys[r.L[1].Int()] = true
+		}
+	}
+	stages := []*stage{}
+	outs := []V{}
+	for _, ops := range args[2].L {
+		o := []V{}
+		for _, op := range ops.L {
+			o = append(o, VS(m.apply(op)))
+		}
+		outs = append(outs, VL(o...))
+		st := &stage{val: map[int64]string{}, lib: map[int64]string{}, cli: map[int64]string{}}
+		st.data, st.merr = json.Marshal(m.env)
+		for k := range keys {
+			st.val[k] = m.apply(VI(9))
+			if k < 0 {
+				st.lib[k] = m.apply(VL(VI(10)))
+			} else {
+				st.lib[k] = m.apply(VL(VI(10), VI(k)))
+			}
+		}
+		stages = append(stages, st)
+	}
+	out := []V{}
+	rows := [][]string{}
+	payloads := [][]byte{}
+	for _, r := range args[3].L {
+		if r.Kind != 'l' || len(r.L) != 2 || r.L[0].Int() < 0 || int(r.L[0].Int()) >= len(stages) {
+			rows = append(rows, []string{"skip", "skip", "skip", "skip", "skip"})
+			payloads = append(payloads, nil)
+			continue
+		}
+		st, k := stages[r.L[0].Int()], r.L[1].Int()
+		cli, bulk, web := "marshal", "marshal", "marshal"
+		var payload []byte
+		if st.merr == nil {
+			if v, ok := st.cli[k]; ok {
+				cli = v
+			} else {
+				cli = c09.cli(st.data, k)
+				st.cli[k] = cli
+			}
+			bulk, web = c09.bulk(st.data, k), c09.http(st.data, k)
+			payload = c09.verifyRequest(st.data, k)
+		}
+		rows = append(rows, []string{st.val[k], st.lib[k], cli, bulk, web})
+		payloads = append(payloads, payload)
+	}
+	for i, b := range c09.batch(payloads) {
+		r := rows[i]
+		if r[0] == "skip" && r[1] == "skip" {
+			b = "skip"
+		}
+		out = append(out, VL(VS(r[0]), VS(r[1]), VS(r[2]), VS(r[3]), VS(r[4]), VS(b)))
+	}
+	return []V{VL(out...), VL(outs...)}
+}
+
 func init() {
+	register("c09seq", c09seq)
 	register("c09", func(args []V) []V {
 		if len(args) < 4 || args[2].Kind != 'l' || args[3].Kind != 'l' {
 			return []V{VErr("badargs")}
